@@ -63,6 +63,10 @@ def scenarios(tier):
         sc.append(("neighbours_" + kind, c, [AB(24), FILL(1), AB(8), FILL(2), AB(40), FILL(3), AB(8), FILL(4), AB(56), FILL(5), AB(8), FILL(6),
                                              AB(55), FILL(7), DROP(1), DROP(3), DROP(5)],
                    [[AB(20), FILL(T0), VER(T0), DROP(T0)], [AB(30), FILL(T1), VER(T1)]], {"live": True}))
+        # the head is popped, split and released again by one thread while the other sits between its read of the head word
+        # and its mark CAS: the same node is the head again, with another size (an ABA on the sentinel word)
+        sc.append(("aba_head_" + kind, c, [AB(120), FILL(1), AB(79), FILL(2), DROP(1)],
+                   [[AB(60), FILL(T0), DROP(T0), AB(30), FILL(T0 + 1), VER(T0 + 1)], [AB(90), FILL(T1), VER(T1)]], {"live": True}))
         # a retry budget of 0 / 1: a request nothing can serve must still return (the holder keeps its allocations for ever)
         for rt in (0, 1):
             c0 = es.conc_cfg(cap=200, kind=kind, minseg=8, retries=rt)
